@@ -79,7 +79,7 @@ def extra_texts(tier, seed):
         rows.append({"kind": "lex", "form": "cps", "cps": [97, c, 98], "full": True})
     # statements of the repository's sheets (slices <= 160 characters) and seeded random mutations of them
     n = 0
-    for path in sorted(glob.glob("/repo/sheets/*.css")):
+    for path in sorted(glob.glob(__import__("os").environ.get("VERIF_REPO", "/repo") + "/sheets/*.css")):
         try:
             text = open(path, "rb").read().decode("utf-8", "replace")
         except OSError:
